@@ -11,6 +11,7 @@ from props.c01 import (impl, coq_case, oracle, MODEL_VO, COQ_IMPORTS, COQ_RUN, C
 from ref.sdo_ref_server import RefServer, mux_key, DEFAULT_STYLE
 
 PROP = "C07"
+ANCHORS = c01.ANCHORS
 RULE = ("(buffered open with an explicit flush / text line buffering included: the wrapper re-offers the bytes of a failed "
         "flush at close) a case = [disturbed transfer, clean download of new data to the same object, clean upload of it] on one client "
         "and one reference server; every protocol step k of the disturbed transfer x every disturbance kind (response "
